@@ -38,12 +38,24 @@ func (verifNopFC) IsNewlyBlocked() bool                                     { re
 // VerifSmap wraps a *streamsMap.
 type VerifSmap struct{ m *streamsMap }
 
+// VerifMaxStreamsCreated bounds the number of streams one wrapped map may ever create. The harness
+// never asks for more than a few per operation; the cap only stops a modified limit check from
+// allocating 2^60 streams (the panic surfaces as the operation's outcome).
+const VerifMaxStreamsCreated = 20000
+
 func VerifNewStreamsMap(pers protocol.Perspective, maxBidi, maxUni uint64, queue func(wire.Frame)) *VerifSmap {
+	created := 0
 	return &VerifSmap{m: newStreamsMap(
 		context.Background(),
 		verifNopSender{},
 		queue,
-		func(protocol.StreamID) flowcontrol.StreamFlowController { return verifNopFC{} },
+		func(id protocol.StreamID) flowcontrol.StreamFlowController {
+			created++ // always called with the owning sub-map's mutex held, or from the harness goroutine
+			if created > VerifMaxStreamsCreated {
+				panic(fmt.Sprintf("verif: more than %d streams created (stream %d)", VerifMaxStreamsCreated, id))
+			}
+			return verifNopFC{}
+		},
 		maxBidi, maxUni, pers,
 	)}
 }
@@ -158,4 +170,17 @@ func (v *VerifSmap) State() string {
 	ob, ou, ib, iu := v.m.outgoingBidiStreams, v.m.outgoingUniStreams, v.m.incomingBidiStreams, v.m.incomingUniStreams
 	v.m.mutex.Unlock()
 	return fmt.Sprintf("ob=%s ou=%s ib=%s iu=%s rs=%d", verifOutState(ob), verifOutState(ou), verifInState(ib), verifInState(iu), rs)
+}
+
+// VerifForceUnlock releases the sub-maps' mutexes if a panic inside a map method left one held
+// (GetOrOpenStream does not defer its Unlock). Only used by the harness when it tears a case down,
+// so that goroutines queued on such a mutex can finish.
+func (v *VerifSmap) VerifForceUnlock() {
+	v.m.mutex.TryLock()
+	ib, iu := v.m.incomingBidiStreams, v.m.incomingUniStreams
+	v.m.mutex.Unlock()
+	ib.mutex.TryLock()
+	ib.mutex.Unlock()
+	iu.mutex.TryLock()
+	iu.mutex.Unlock()
 }
